@@ -90,6 +90,18 @@ def callee_frame(F, defpath):
     return out
 
 
+def _constructs(t, variant):
+    """the term builds the enum variant itself (through aggregates only): an error that merely *passes on* the result of a call
+    whose argument state happens to mention the variant does not count"""
+    if not (isinstance(t, tuple) and t):
+        return False
+    if t[0] == 'agg':
+        if isinstance(t[1], tuple) and t[1][0] == 'adt' and t[1][2] == variant:
+            return True
+        return any(_constructs(x, variant) for x in t[2])
+    return False
+
+
 def run(ctx):
     F = ctx.F
     dec = [b for b in F.bodies if b.promoted is None and b.name == 'decode_symbol' and b.self_adt == CHAIN and b.impl_trait == 'stream::Decode']
@@ -148,7 +160,7 @@ def run(ctx):
                 and len(r.ret[1][2]) > 1 and sym.contains(r.ret[1][2][1], lambda x: isinstance(x, tuple) and x and x[0] == 'agg' and isinstance(x[1], tuple) and x[1][0] == 'adt' and x[1][2] == 'OutOfCompressedData'):
             low_idx.append(len(r.events))
             sinks['exhaust'].append((None, None, r))
-        elif r.end == 'return' and r.ret is not None and r.ret[0] == 'agg' and isinstance(r.ret[1], tuple) and r.ret[1][-1] == 'Err' and sym.contains(r.ret, lambda x: isinstance(x, tuple) and x and x[0] == 'agg' and isinstance(x[1], tuple) and x[1][0] == 'adt' and x[1][2] == 'OutOfCompressedData'):
+        elif r.end == 'return' and r.ret is not None and r.ret[0] == 'agg' and isinstance(r.ret[1], tuple) and r.ret[1][-1] == 'Err' and _constructs(r.ret, 'OutOfCompressedData'):
             # the error is constructed directly (not as the ok_or(..) of a read)
             low_idx.append(len(r.events))
             sinks['exhaust'].append((None, None, r))
